@@ -40,7 +40,7 @@ def rand_settings(rng, version, tclk_mode):
         extended_pan_id=zt.ExtendedPanId.deserialize(bytes(rng.getrandbits(8) for _ in range(8)))[0],
         pan_id=zt.PanId(rng.randint(1, 0xFFFE)), nwk_update_id=rng.getrandbits(8), nwk_manager_id=zt.NWK(0), channel=chan, channel_mask=mask,
         security_level=5,
-        network_key=zigpy.state.Key(key=zt.KeyData(bytes(rng.getrandbits(8) for _ in range(16))), seq=rng.getrandbits(8), tx_counter=rng.getrandbits(32)),
+        network_key=zigpy.state.Key(key=zt.KeyData(bytes(rng.getrandbits(8) for _ in range(16))), seq=rng.choice([0, rng.getrandbits(8)]), tx_counter=rng.choice([0, 0, 1, rng.getrandbits(32)])),
         tc_link_key=zigpy.state.Key(key=zt.KeyData(tclk), partner_ieee=rng.choice([zt.EUI64.UNKNOWN, eui()]), tx_counter=rng.getrandbits(32)),
         key_table=[zigpy.state.Key(key=zt.KeyData(bytes(rng.getrandbits(8) for _ in range(16))), partner_ieee=p) for p in partners],
         children=childs, nwk_addresses=nwk_addresses, stack_specific=stack_specific, metadata={})
@@ -48,7 +48,7 @@ def rand_settings(rng, version, tclk_mode):
     return ni, node
 
 
-async def roundtrip(version, nv3, ni, node):
+async def roundtrip(version, nv3, ni, node, prior=None):
     import bellows.ezsp as ezsp_mod
     import copy
 
@@ -62,6 +62,12 @@ async def roundtrip(version, nv3, ni, node):
         app._ezsp = e
         e.add_callback(app.ezsp_callback_handler)
         await e.startup_reset()
+        out["prior_fc"], out["prior_keys"] = 0, 0
+        if prior is not None:
+            # the stick is not factory fresh: an earlier network was written to it
+            p_ni, p_node = copy.deepcopy(prior[0]), copy.deepcopy(prior[1])
+            await app.write_network_info(network_info=p_ni, node_info=p_node)
+            out["prior_fc"], out["prior_keys"] = st.nwk_fc, sum(1 for k in st.keys if k is not None)
         w_ni, w_node = copy.deepcopy(ni), copy.deepcopy(node)
         await app.write_network_info(network_info=w_ni, node_info=w_node)
         out["written_stack_specific"] = w_ni.stack_specific
@@ -140,7 +146,7 @@ def model_line(version, ni, o):
     keys = [(_k(k.key), _k(k.partner_ieee.serialize())) for k in ni.key_table]
     ch = [(_k(c.serialize()), int(ni.nwk_addresses[c])) for c in ni.children if c in ni.nwk_addresses]
     return " ".join(str(x) for x in [
-        "c14", version, o["store"].K, int(ni.pan_id), _k(ni.extended_pan_id.serialize()), int(ni.channel), int(ni.channel_mask), int(ni.nwk_update_id),
+        "c14", version, o["store"].K, o["prior_fc"], o["prior_keys"], int(ni.pan_id), _k(ni.extended_pan_id.serialize()), int(ni.channel), int(ni.channel_mask), int(ni.nwk_update_id),
         _k(ni.network_key.key), int(ni.network_key.seq), int(ni.network_key.tx_counter), _k(ni.tc_link_key.key),
         _k(bytes.fromhex(hashed)) if hashed else "-", 1 if w.tc_link_key.partner_ieee != zt.EUI64.UNKNOWN else 0,
         _k(bytes.fromhex(gen)), _pairs(keys), _pairs(ch)])
@@ -172,7 +178,11 @@ def cases(ctx):
             for i in range(per):
                 mode = "wellknown" if i % 3 else "custom"
                 ni, node = rand_settings(rng, v, mode)
-                cs.append((v, nv3, mode, ni, node))
+                prior = rand_settings(rng, v, "wellknown") if i % 2 else None
+                if prior is not None and i % 4 == 1:
+                    prior[0].network_key.tx_counter = rng.randint(1, 1 << 31)  # a used stick, then a backup with a fresh counter
+                    ni.network_key.tx_counter = 0
+                cs.append((v, nv3, mode, ni, node, prior))
     return cs
 
 
@@ -185,8 +195,9 @@ def run(ctx):
     logging.disable(logging.CRITICAL)
     cs = cases(ctx)
     lines, impl = [], []
-    for i, (v, nv3, mode, ni, node) in enumerate(cs):
-        o = asyncio.run(roundtrip(v, nv3, ni, node))
+    for i, (v, nv3, mode, ni, node, prior) in enumerate(cs):
+        o = asyncio.run(roundtrip(v, nv3, ni, node, prior))
+        ctx.count("ncp:" + ("used" if prior else "fresh"))
         if o["result"] == "ok":
             lines.append(model_line(v, ni, o))
             impl.append(impl_line(v, o))
@@ -210,7 +221,7 @@ def run(ctx):
         if a != b:
             ctx.corr_diff("write / read-back model and the real application over the NCP store differ", {"line": ln}, a, b)
     ctx.cov["rule"] = (f"{ctx.n(6, 40)} random settings per protocol version 4..14 and per capability (rewritable EUI64 token or not): PAN/extended PAN, channel and mask, update ID, network key with sequence and frame counter, "
-                       "well-known or custom trust-centre link key with or without a stored hashed form, 0..5 link keys, 0..4 children with/without NWK addresses; write then read back through the real application and handlers")
+                       "frame counters including 0, a factory-fresh NCP or one that already holds an earlier network (frame counter, keys, children), well-known or custom trust-centre link key with or without a stored hashed form, 0..5 link keys, 0..4 children with/without NWK addresses; write then read back through the real application and handlers")
     ctx.exhaustive = False
 
 
